@@ -59,13 +59,16 @@ CHECKS['C08'] = dict(check='c08', engine='E3-history-vs-model', category='explor
                      note='trusted base: FlowIRConcrete(raw()) as the meaning of "from scratch"; sequences only (no concurrent callers, '
                           'which the property does not quantify over); sampled histories of up to 40 operations')
 
-CHECKS['C14'] = dict(check='c14', engine='E4-simfs-fault-enumeration', category='fault_enumeration', design='§3 C14',
+CHECKS['C14'] = dict(check='c14', also=['c14rt'], engine='E4-simfs-fault-enumeration', category='fault_enumeration', design='§3 C14',
                      technique='deterministic simulation with fault injection on a simulated file layer: every write boundary of an update x {crash before/after, torn flush, EIO, ENOSPC, rename failure}, old-or-new oracle + read-back fidelity',
                      text='for each of the five state-file writers a generated history of updates is run fault-free (read-back equals '
                           'the values last written after every update), then every write boundary of the last update is hit with every '
                           'fault kind; afterwards each state file must be byte-identical to the complete previous or complete new '
                           'version and must load, and after a handled I/O error the next update must succeed. Enumeration of the fault '
-                          'space of one history is the right level: the property quantifies over crash points.',
+                          'space of one history is the right level: the property quantifies over crash points. In situ (c14rt): a DoWhile '
+                          'workflow under the real Controller with a real StatusMonitor thread and OutputAgent, process death at a seeded '
+                          'write boundary of any writer while the others are mid-flight; every state file must then load and the '
+                          'instance must load as an experiment.',
                      note='trusted base: sim/simfs.py models process death and I/O errors (not power loss: fsync ordering is outside C14); '
                           'un-flushed data is lost at a crash, a torn flush leaves a seeded prefix; histories are sampled, boundaries of '
                           'long YAML dumps are sampled down to max_boundaries in the quick tier')
